@@ -369,6 +369,8 @@ C04 = dict(
         "c04_verify_proof_block_altered": _T("a block proof with one altered block byte or sibling-hash byte is refused; replica unchanged", "position and value of the altered byte; 2 block bytes; sibling hash/length", "one alteration at a time"),
     },
 )
+C04["mir"] = True
+C04["functions"] = C04["functions"] + ["MIR of hypercore::tree::merkle_tree::MerkleTree::verify_proof (when the pending block-root comparison may be dropped, on every path)"]
 PROPS["C04"] = C04
 
 # --------------------------------------------------------------------------------------------- C10
